@@ -456,6 +456,8 @@ func exec[K comparable, V any](pm *map[K]V, ops []op, lo, hi int, t *tk[K, V]) {
 		case 'R':
 			doRange(pm, ops, pc, t)
 			pc = o.d
+		case 'P':
+			doPop(pm, t)
 		}
 	}
 }
@@ -538,6 +540,47 @@ func doRange[K comparable, V any](pm *map[K]V, ops []op, pc int, t *tk[K, V]) {
 	wi(done)
 	whdr(m)
 	nl()
+}
+
+// delete whichever entry a range loop produces first:  for k := range m { delete(m, k); break }
+func doPop[K comparable, V any](pm *map[K]V, t *tk[K, V]) {
+	m := *pm
+	iterID++
+	id := iterID
+	ws("RS")
+	wi(id)
+	whdr(m)
+	nl()
+	var kk K
+	found := false
+	for k, v := range m {
+		wb('Y')
+		wi(id)
+		wi(t.rdv(v))
+		t.pk(k)
+		whdr(m)
+		nl()
+		kk = k
+		found = true
+		break
+	}
+	ws("RE")
+	wi(id)
+	if found {
+		wi(0)
+	} else {
+		wi(1)
+	}
+	whdr(m)
+	nl()
+	if found {
+		p := doDel(m, kk)
+		ws("PD")
+		wi(p)
+		t.pk(kk)
+		whdr(m)
+		nl()
+	}
 }
 
 func run[K comparable, V any](ops []op, key func(int) K, pk func(K), mkv func(int) V, rdv func(V) int) {
